@@ -43,7 +43,7 @@ impl VAct {
     fn show(&self) -> String {
         match self {
             VAct::Subscribe(i) => format!("subscribe S{}", i),
-            VAct::Advance(d) => format!("advance {}ms", d),
+            VAct::Advance(d) => format!("advance {}us", d),
             VAct::Dispose(i, e) => format!("S{} {}", i, if *e { "Error" } else { "Terminate" }),
             VAct::Pull(i) => format!("S{} Pull", i),
         }
@@ -52,7 +52,8 @@ impl VAct {
 
 pub fn gen_vcase(c: &mut Chooser, allow_j: bool) -> VCase {
     let n_src = 1 + c.choose(2);
-    let periods: Vec<u64> = (0..n_src).map(|_| 1 + c.choose(7) as u64).collect();
+    // virtual microseconds; periods need not be whole milliseconds
+    let periods: Vec<u64> = (0..n_src).map(|_| [300u64, 500, 900, 1000, 1500, 1950, 2000, 2500, 3000, 7000][c.choose(10)]).collect();
     let n_subs = 1 + c.choose(4);
     let subs = (0..n_subs)
         .map(|_| {
@@ -72,6 +73,12 @@ struct SubRt {
     task: Option<usize>,
     /// virtual time of a top-level disposal
     disposed_at: Option<u64>,
+}
+
+impl Drop for VResult {
+    fn drop(&mut self) {
+        self.world.teardown();
+    }
 }
 
 pub struct VResult {
@@ -94,7 +101,7 @@ pub fn run_vcase(case: &VCase, c: &mut Chooser, seed_rng: Rng) -> VResult {
     let sources: Vec<Src<usize>> = case
         .periods
         .iter()
-        .map(|p| -> Src<usize> { Arc::new(callbag::interval(Duration::from_millis(*p), exec.clone())) })
+        .map(|p| -> Src<usize> { Arc::new(callbag::interval(Duration::from_micros(*p), exec.clone())) })
         .collect();
     let mut rts: Vec<SubRt> = vec![];
     for (i, s) in case.subs.iter().enumerate() {
@@ -115,7 +122,7 @@ pub fn run_vcase(case: &VCase, c: &mut Chooser, seed_rng: Rng) -> VResult {
         if next_sub < case.subs.len() {
             acts.push((VAct::Subscribe(next_sub), 5));
         }
-        acts.push((VAct::Advance(1 + c.choose(2 * 7) as u64), 10));
+        acts.push((VAct::Advance(50 * (1 + c.choose(280)) as u64), 10));
         for (i, r) in rts.iter().enumerate() {
             if r.probe.can_act() {
                 acts.push((VAct::Dispose(i, false), 1));
@@ -171,9 +178,15 @@ pub fn run_vcase(case: &VCase, c: &mut Chooser, seed_rng: Rng) -> VResult {
     }
     QUIET_PANICS.with(|q| q.set(false));
     let (polls, tie_breaks) = {
-        let g = exec.0.lock().unwrap();
+        let mut g = exec.0.lock().unwrap();
+        // drop the pending tasks (they hold the sinks) and the probes' talkbacks
+        g.tasks.clear();
+        g.timers.clear();
         (g.polls, g.tie_breaks)
     };
+    for r in rts.iter() {
+        *r.probe.talkback.lock().unwrap() = None;
+    }
     VResult { world, steps, case: case.clone(), polls, tie_breaks }
 }
 
@@ -235,7 +248,7 @@ fn oracle(case: &VCase, world: &Arc<World>, exec: &VExec, rts: &[SubRt]) {
         let want: Vec<i64> = (0..expected as i64).collect();
         if data != want {
             let d = format!(
-                "period {}ms subscribed at t={} now t={}{}: expected {:?}, sink received {:?}",
+                "period {}us subscribed at t={} now t={}{}: expected {:?}, sink received {:?}",
                 p,
                 r.t_sub,
                 now,
@@ -278,7 +291,7 @@ fn oracle(case: &VCase, world: &Arc<World>, exec: &VExec, rts: &[SubRt]) {
 pub fn vcase_json(r: &VResult) -> J {
     let g = r.world.lock();
     J::obj()
-        .set("periods_ms", J::arr(r.case.periods.iter().map(|p| J::i(*p as i64))))
+        .set("periods_us", J::arr(r.case.periods.iter().map(|p| J::i(*p as i64))))
         .set(
             "subscriptions",
             J::arr(r.case.subs.iter().enumerate().map(|(i, s)| {
@@ -308,7 +321,7 @@ fn run_k2_witness(o: &Opts, rep: &mut Report) {
     }
     let known = load_known(&o.known);
     let case = VCase {
-        periods: vec![3],
+        periods: vec![3000],
         subs: vec![SubPlan { source: 0, fault: None, j: 1, probe: ProbeSpec::passive() }],
         max_steps: 1,
     };
